@@ -57,14 +57,15 @@ class ShardWriterNP(ShardWriterBase):
 
             values (dict[str, npt.NDArray[np.generic]]): Attribute values.
         """
-        # Just buffer all values.
-        if not self._buffer:
-            self._buffer = {
-                name: [np.copy(value)] for name, value in values.items()
-            }
-        else:
-            for name, value in values.items():
-                self._buffer[name].append(np.copy(value))
+        # Just buffer all values. Copy all declared attributes first so that
+        # a missing attribute is noticed before anything is buffered (and all
+        # buffered lists keep the same length).
+        copies: dict[str, AttributeValueT] = {
+            attribute.name: np.copy(values[attribute.name])
+            for attribute in self.dataset_structure.saved_data_description
+        }
+        for name, value in copies.items():
+            self._buffer.setdefault(name, []).append(value)
 
     def close(self) -> None:
         """Close the shard file(-s).
